@@ -277,101 +277,3 @@ Example skeleton_length_example :
   /\ nonneg_list [7; 3].
 Proof. split; [vm_compute; reflexivity|]. intros i [<-|[<-|[]]]; lia. Qed.
 
-(* ------------------------------------------------------------------ euler_number *)
-
-Definition cells_of (im : img) : list (Z * Z) := grid (length im + 3) (width im + 3).
-
-Definition euler_part (cond : img -> Z -> Z -> Z -> Z -> Z) (im : img) (l : Z) : Z :=
-  group_fold 0 Z.add l
-    (map (fun yx => (i00 im (fst yx) (snd yx),
-                     cond im (Z.of_nat (length im)) (Z.of_nat (width im)) (fst yx) (snd yx))) (cells_of im)).
-
-Definition euler1 (im : img) (l : Z) : Z :=
-  euler_part q1_cond im l - euler_part q3_cond im l - 2 * euler_part qd_cond im l.
-
-Lemma euler4_pt im idxs : euler4 im idxs = map (euler1 im) idxs.
-Proof.
-  unfold euler4, nd_fold. rewrite !combine_map2, map_map. apply map_ext. intros l. reflexivity.
-Qed.
-
-Lemma mask_shape l im l' im' :
-  mask l im = mask l' im' -> length im = length im' /\ width im = width im'.
-Proof.
-  intros H. split.
-  - apply (f_equal (@length _)) in H. unfold mask in H. rewrite !map_length in H. exact H.
-  - destruct im as [|r t], im' as [|r' t']; cbn [mask map] in H; try discriminate; [reflexivity|].
-    injection H as H _. apply (f_equal (@length _)) in H. rewrite !map_length in H. exact H.
-Qed.
-
-Lemma mask_eql l im l' im' :
-  mask l im = mask l' im' -> l <> 0 -> l' <> 0 ->
-  forall y x, (g im y x =? l) = (g im' y x =? l').
-Proof.
-  intros H Hl Hl' y x. pose proof (get_mask l im y x) as H1. pose proof (get_mask l' im' y x) as H2.
-  rewrite H in H1. rewrite H1 in H2. unfold g.
-  destruct (get im y x) as [v|], (get im' y x) as [v'|]; cbn [option_map] in H2; try discriminate.
-  - injection H2 as H2. rewrite (Z.eqb_sym v l), (Z.eqb_sym v' l'). exact H2.
-  - lia.
-Qed.
-
-Ltac euler_cond E E2 Hk Hk' :=
-  unfold i00, i01, i10, i11 in *; rewrite ?Hk, ?Hk'; unfold ne, eq; rewrite ?E, ?E2; reflexivity.
-
-Lemma euler_part_two cond im l im' l' :
-  (forall h w y x,
-      (forall y x, (g im y x =? l) = (g im' y x =? l')) ->
-      i00 im y x = l -> i00 im' y x = l' -> cond im h w y x = cond im' h w y x) ->
-  mask l im = mask l' im' -> l <> 0 -> l' <> 0 ->
-  euler_part cond im l = euler_part cond im' l'.
-Proof.
-  intros Hc H Hl Hl'. pose proof (mask_eql l im l' im' H Hl Hl') as E.
-  destruct (mask_shape _ _ _ _ H) as [Hh Hw].
-  unfold euler_part, group_fold, cells_of. rewrite !filter_map_comm, !map_map. cbn [fst snd].
-  rewrite <- Hh, <- Hw.
-  rewrite (filter_ext (fun a => i00 im (fst a) (snd a) =? l) (fun a => i00 im' (fst a) (snd a) =? l'))
-    by (intros a; unfold i00; apply E).
-  f_equal. apply map_ext_in. intros c Hc'. apply filter_In in Hc'. destruct Hc' as [_ Hk'].
-  assert (Hk : i00 im (fst c) (snd c) = l) by (apply Z.eqb_eq; unfold i00 in *; rewrite E; exact Hk').
-  apply Hc; [exact E|exact Hk|lia].
-Qed.
-
-Lemma euler1_two im l im' l' :
-  mask l im = mask l' im' -> l <> 0 -> l' <> 0 -> euler1 im l = euler1 im' l'.
-Proof.
-  intros H Hl Hl'. unfold euler1.
-  assert (S : forall E : (forall y x, (g im y x =? l) = (g im' y x =? l')),
-             forall y x, (l =? g im y x) = (l' =? g im' y x))
-    by (intros E y x; rewrite (Z.eqb_sym l), (Z.eqb_sym l'); apply E).
-  rewrite (euler_part_two q1_cond im l im' l'), (euler_part_two q3_cond im l im' l'),
-          (euler_part_two qd_cond im l im' l'); auto.
-  - intros h w y x E Hk Hk'. pose proof (S E) as E2. unfold qd_cond. euler_cond E E2 Hk Hk'.
-  - intros h w y x E Hk Hk'. pose proof (S E) as E2. unfold q3_cond. euler_cond E E2 Hk Hk'.
-  - intros h w y x E Hk Hk'. pose proof (S E) as E2. unfold q1_cond. euler_cond E E2 Hk Hk'.
-Qed.
-
-Definition nonzero_list (l : list Z) : Prop := forall i, In i l -> i <> 0.
-
-Theorem euler_independent im im' idxs idxs' k k' l :
-  l <> 0 -> mask l im = mask l im' -> nth_error idxs k = Some l -> nth_error idxs' k' = Some l ->
-  nth_error (euler4 im idxs) k = nth_error (euler4 im' idxs') k'.
-Proof.
-  intros Hl Hm Hk Hk'. rewrite !euler4_pt, !nth_error_map, Hk, Hk'. cbn [option_map].
-  rewrite (euler1_two im l im' l Hm Hl Hl). reflexivity.
-Qed.
-
-Theorem euler_relabel f im idxs :
-  injective f -> f 0 = 0 -> nonzero_list idxs -> euler4 (relabel f im) (map f idxs) = euler4 im idxs.
-Proof.
-  intros Inj F0 Hnz. rewrite !euler4_pt, map_map. apply map_ext_in. intros l Hl.
-  apply euler1_two; [apply mask_relabel, Inj| |apply Hnz, Hl].
-  intros E. rewrite <- F0 in E. apply Inj in E. exact (Hnz l Hl E).
-Qed.
-
-Definition euler_request im idxs : euler4 im idxs = flat_map (fun l => euler4 im [l]) idxs :=
-  tr_request euler4 euler1 euler4_pt im idxs.
-
-Example euler_example :
-  let im := [[2; 2; 2]; [2; 0; 2]; [2; 2; 2]] in
-  let im' := [[2; 2; 2]; [2; 5; 2]; [2; 2; 2]] in
-  mask 2 im = mask 2 im' /\ euler4 im [2] = [0] /\ euler4 im' [5; 2] = [4; 0].
-Proof. cbv zeta. repeat split; vm_compute; reflexivity. Qed.
